@@ -39,6 +39,9 @@ WF(q) == \A i, j \in DOMAIN q : i # j =>
 DupLists == {<<V("a", "T1", ""), V("a", "T2", "")>>, <<V("a", "T1", ""), V("B", "T2", ""), V("b", "T1", "s")>>, <<V("B", "T1", ""), V("", "T1", ""), V("B", "T1", "s")>>}
 Descs == {[vals |-> q, kind |-> "list"] : q \in {x \in Lists : WF(x)} \cup DupLists}
          \cup {[vals |-> q, kind |-> "lifted"] : q \in {<<V("", "T1", "")>>, <<V("", "T1", ""), V("", "T2", "")>>, <<V("", "T2", ""), V("", "T1", "")>>}}
+         \* the input set of an ordinary function taking a marker struct / a pointer to one (what BuildFunc(f.Input(), ...) wraps)
+         \cup {[vals |-> q, kind |-> k] : k \in {"struct", "ptrstruct"},
+                                          q \in {<<V("a", "T1", "")>>, <<V("a", "T1", "s"), V("", "T2", "")>>, <<V("", "T2", "t"), V("B", "T1", "")>>}}
 
 Rep(v) == V(Lower(v.name), v.type, v.sub)
 ExpValues(d) == [i \in DOMAIN d.vals |-> Rep(d.vals[i])]
@@ -66,6 +69,8 @@ C15 == rec.ev = "obs" =>
         /\ (dd.vals[i].name = "" /\ Cardinality(IdxTyped(dd, dd.vals[i].type)) = 1) => rec.typed[i] = i
         /\ Cardinality(IdxTS(dd, dd.vals[i].type, dd.vals[i].sub)) = 1 => rec.ts[i] = i
    /\ rec.ok => rec.roundtrip = [i \in DOMAIN dd.vals |-> i]
+   \* rendering a set as a signature is a read: rendering it a second time gives the same values
+   /\ rec.ok => rec.roundtrip2 = [i \in DOMAIN dd.vals |-> i]
 Accepted == TLCGet("stats").diameter - 1 = Len(Trace)
 Pos == [line |-> l, sid |-> 0]
 =============================================================================
